@@ -26,10 +26,32 @@ FAMILIES = ["[x](/p%a)", "<http://example.com/50%2>", "[r]\n\n[r]: /u%f", "![i](
             "é" * 20, "𝄞*𝄞*", "*é*", "_é_é_", "ſ", "[ẞ]: /u\n[SS]", "<ſcript>\nx", "&#xD800;&#x110000;&#0;", "[a][]\n\n[a]: b", "[a]\n\n[A]: b\n[a]: c"]
 
 
+# runs whose length sits on the boundary of a narrow counter (u8/u16): at the line start, after a paragraph line
+# (interrupter probe), inside text, before a space (seed C01-8: the 256th '#')
+RUNCHARS = "#>*-_=+~`[]()!<&\\ \t1.:\"'"
+
+
+def width_docs(tier):
+    for ch in RUNCHARS:
+        for w in ((255, 256, 257) if tier == "quick" else (127, 128, 129, 255, 256, 257, 511, 512, 513)):
+            run = ch * w
+            yield run
+            yield run + " x"
+            yield "a\n" + run + " x\n"
+            yield "x " + run + " y"
+    for ch in "#`1>* -=~":
+        for w in (65535, 65536, 65537):
+            yield ch * w + " x"
+            yield "a\n" + ch * w
+
+
 def cases(rng, tier, Case):
     n = 2500 if tier == "quick" else 120000
     res = []
     ins = corpus.spec_inputs()
+    for d in width_docs(tier):
+        for cfg in ("CsW", "nebmliatcfqhurHLpS"):
+            res.append(Case("parse %s 100 TREW %s" % (cfg, hx(d)), "width", {"cfg": cfg, "nest": 100, "src": hx(d)}, len(d) < 300))
     for d in FAMILIES:
         for cfg in ("CsW", "CsWS", "nebmliat", "cfqhurHLp", mdgen.gen_cfg(rng)):
             for nest in (100, 3, 2):
